@@ -6,6 +6,13 @@ ROOT = os.path.dirname(os.path.dirname(os.path.abspath(__file__)))
 
 # id -> (category, technique, text, note, design_ref)
 CHECKS = {
+ "C13": ("fault_enumeration", "scripted-Client classification table for KeepAlive; system monitor of PINGREQ times, dropped pings, library Close and redial on the real ReconnectClient",
+         "Seeded scripts of ping outcomes (prompt, immediate failure, never answered, parent cancelled before/during a ping) against KeepAlive with logical classification (timeouts that cannot have expired), and system runs in which the broker model goes silent at a chosen point or never; only a silent peer may be declared dead, a silent peer must be detected with ErrPingTimeout and followed by a new connection.",
+         "Trusted: scripted Ping honours its context like the real one; lower bounds on time only.", "5/C13"),
+ "C16": ("fault_enumeration", "per-connection automaton over the ConnState callback log plus sampled Err()/Done() while healthy, after the end and after graceful Disconnect",
+         "Every ending (peer close, local Close, malformed packet, refused CONNACK, Disconnect) alone, in sequence and racing on a BaseClient; reconnecting client with keep-alive going through several connections, the re-established connection sampled 3 keep-alive intervals after CONNACK and again after a graceful Disconnect.",
+         "Trusted: callback log recorded under the trace mutex; racing causes are only held to order-independent rules.", "5/C16"),
+
  "C09": ("fault_enumeration", "online/offline lifecycle monitor over Dialer and transport events: open-transport count at dial, CONNECT-first, back-off lower bounds, no dial after Disconnect; Disconnect/cancel steered into every loop phase",
          "Seeded sequences of connection-ending causes (peer close, malformed packet, refused/absent CONNACK, cuts, dial-error runs, keep-alive silence, outages) x 6 back-off settings on the real ReconnectClient; Disconnect and context cancellation steered into each phase of the loop (parked Dialer, waiting CONNACK, back-off wait, connected).",
          "Trusted: monotonic clock for lower bounds (sound under load); absence of dials after Disconnect observed for 3x max back-off.", "5/C09"),
